@@ -139,8 +139,16 @@ func perr(op, path string, err error) error {
 	return &PathError{Op: op, Path: path, Err: err}
 }
 
+// CanonName, when set, maps a file's base name to the name used in the event
+// log and in scheduling keys (random identifiers -> first-appearance numbers).
+var CanonName func(base string) string
+
 func point(op, path string) {
-	simrt.Point("fs:"+op, filepath.Base(path))
+	b := filepath.Base(path)
+	if CanonName != nil {
+		b = CanonName(b)
+	}
+	simrt.Point("fs:"+op, b)
 }
 
 // fault decides whether this operation fails by injection.
